@@ -572,6 +572,9 @@ def single_perturbations(r):
         x = copy.deepcopy(r)
         if f(x) is False:
             return
+        pn = [p_["name"] for p_ in x["params"]]
+        if len(set(pn)) != len(pn):
+            return                      # not valid Go
         x["pert"] = r["pert"] + [label]
         out.append((label, x))
 
